@@ -599,19 +599,19 @@ Proof.
   apply w7_fold_length in H. lia.
 Qed.
 
-Lemma n0_nsm_length oc idxs : forall pc x pc', n0_nsm oc pc idxs x = Ok pc' -> length pc' = length pc.
+Lemma n0_nsm_length lg oc idxs : forall pc x pc', n0_nsm lg oc pc idxs x = Ok pc' -> length pc' = length pc.
 Proof.
   induction idxs as [|j rest IH]; intros pc x pc' H; cbn [n0_nsm] in H.
   - injection H as <-. reflexivity.
   - apply la_bind_ok in H. destruct H as (o & _ & H).
     apply la_bind_ok in H. destruct H as (p & _ & H).
-    destruct ((o =c NSM) || (p =c BN)).
+    destruct ((o =c NSM) || (if lg then p =c BN else removed_by_x9 o)).
     + apply la_bind_ok in H. destruct H as (pc1 & H1 & H). apply IH in H. apply la_upd_length in H1. lia.
     + injection H as <-. reflexivity.
 Qed.
 
-Lemma n0_pair_length e backwards text sq oc ecls not_e pc pair pc' :
-  n0_pair e backwards text sq oc ecls not_e pc pair = Ok pc' -> length pc' = length pc.
+Lemma n0_pair_length e lg backwards text sq oc ecls not_e pc pair pc' :
+  n0_pair e lg backwards text sq oc ecls not_e pc pair = Ok pc' -> length pc' = length pc.
 Proof.
   unfold n0_pair. intros H.
   apply la_bind_ok in H. destruct H as (sub & _ & H).
@@ -632,8 +632,8 @@ Proof.
   apply n0_nsm_length in H. lia.
 Qed.
 
-Lemma n0_pairs_length e backwards text sq oc ecls not_e pairs : forall pc pc',
-  n0_pairs e backwards text sq oc ecls not_e pc pairs = Ok pc' -> length pc' = length pc.
+Lemma n0_pairs_length e lg backwards text sq oc ecls not_e pairs : forall pc pc',
+  n0_pairs e lg backwards text sq oc ecls not_e pc pairs = Ok pc' -> length pc' = length pc.
 Proof.
   induction pairs as [|p rest IH]; intros pc pc' H; cbn [n0_pairs] in H.
   - injection H as <-. reflexivity.
